@@ -411,16 +411,18 @@ func Ite(c, a, b *Term) *Term {
 	if t == nil {
 		t = b.T
 	}
-	// boolean-valued ite with constant arms is the condition itself
+	// boolean-valued ite with a constant arm is a connective
 	if av, ok := a.BoolVal(); ok {
-		if bv, ok2 := b.BoolVal(); ok2 {
-			if av && !bv {
-				return c
-			}
-			if !av && bv {
-				return Not(c)
-			}
+		if av {
+			return Or(c, b)
 		}
+		return And(Not(c), b)
+	}
+	if bv, ok := b.BoolVal(); ok {
+		if bv {
+			return Or(Not(c), a)
+		}
+		return And(c, a)
 	}
 	return &Term{Op: "ite", Args: []*Term{c, a, b}, T: t}
 }
@@ -904,3 +906,210 @@ func tokenOf(name string) token.Token { return tokByName[name] }
 
 // TokenOf exposes the operator token of a "bin"/"un" term.
 func TokenOf(t *Term) token.Token { return tokByName[t.Name] }
+
+// TermCase is one leaf of a term whose top-level structure (through tuples)
+// contains gated joins.
+type TermCase struct {
+	Conds []*Term
+	Val   *Term
+}
+
+func flattenConds(cs []*Term) []*Term {
+	var out []*Term
+	seen := map[string]bool{}
+	var add func(c *Term)
+	add = func(c *Term) {
+		if c.Op == "and" {
+			for _, a := range c.Args {
+				add(a)
+			}
+			return
+		}
+		if c.Op == "not" && c.Args[0].Op == "or" {
+			for _, a := range c.Args[0].Args {
+				add(Not(a))
+			}
+			return
+		}
+		if b, ok := c.BoolVal(); ok && b {
+			return
+		}
+		if !seen[c.Key()] {
+			seen[c.Key()] = true
+			out = append(out, c)
+		}
+	}
+	for _, c := range cs {
+		add(c)
+	}
+	return out
+}
+
+// CondsContradict reports whether the conjunction of cs is syntactically
+// unsatisfiable: it contains x and not(x), false, not(and(xs)) with every x
+// present, or or(xs) with every not(x) present.
+func CondsContradict(cs []*Term) bool { return condsContradict(cs) }
+
+func condsContradict(cs []*Term) bool {
+	cs = flattenConds(cs)
+	// propositional atoms: maximal sub-terms that are not and/or/not
+	idx := map[string]int{}
+	var collect func(t *Term)
+	collect = func(t *Term) {
+		switch t.Op {
+		case "and", "or", "not":
+			for _, a := range t.Args {
+				collect(a)
+			}
+		default:
+			if _, ok := t.BoolVal(); ok {
+				return
+			}
+			if _, ok := idx[t.Key()]; !ok {
+				idx[t.Key()] = len(idx)
+			}
+		}
+	}
+	for _, c := range cs {
+		collect(c)
+	}
+	if len(idx) > 14 {
+		// too many atoms for a truth table: syntactic test only
+		m := map[string]bool{}
+		for _, c := range cs {
+			m[c.Key()] = true
+		}
+		for _, c := range cs {
+			if m[Not(c).Key()] {
+				return true
+			}
+			if b, ok := c.BoolVal(); ok && !b {
+				return true
+			}
+		}
+		return false
+	}
+	var eval func(t *Term, asg uint) bool
+	eval = func(t *Term, asg uint) bool {
+		switch t.Op {
+		case "and":
+			for _, a := range t.Args {
+				if !eval(a, asg) {
+					return false
+				}
+			}
+			return true
+		case "or":
+			for _, a := range t.Args {
+				if eval(a, asg) {
+					return true
+				}
+			}
+			return false
+		case "not":
+			return !eval(t.Args[0], asg)
+		}
+		if b, ok := t.BoolVal(); ok {
+			return b
+		}
+		return asg&(1<<uint(idx[t.Key()])) != 0
+	}
+	n := uint(len(idx))
+	for asg := uint(0); asg < 1<<n; asg++ {
+		ok := true
+		for _, c := range cs {
+			if !eval(c, asg) {
+				ok = false
+				break
+			}
+		}
+		if ok {
+			return false // satisfiable as a propositional formula
+		}
+	}
+	return true
+}
+
+// Cases expands gated joins at the top of t and inside tuples into a list of
+// (conditions, ite-free-at-top value) leaves. Returns nil if more than max
+// leaves would result.
+func Cases(t *Term, max int) []TermCase { return CasesUnder(nil, t, max) }
+
+// CasesUnder is Cases with an initial list of conditions known to hold; leaves
+// contradicting them are dropped.
+func CasesUnder(pre []*Term, t *Term, max int) []TermCase {
+	out := casesRec(t, max)
+	if out == nil {
+		return nil
+	}
+	if len(pre) == 0 {
+		return out
+	}
+	var kept []TermCase
+	for _, x := range out {
+		cs := flattenConds(append(append([]*Term{}, pre...), x.Conds...))
+		if !condsContradict(cs) {
+			kept = append(kept, TermCase{cs, x.Val})
+		}
+	}
+	return kept
+}
+
+func casesRec(t *Term, max int) []TermCase {
+	var rec func(t *Term) []TermCase
+	rec = func(t *Term) []TermCase {
+		switch t.Op {
+		case "ite":
+			var out []TermCase
+			for _, x := range rec(t.Args[1]) {
+				cs := append([]*Term{t.Args[0]}, x.Conds...)
+				if !condsContradict(cs) {
+					out = append(out, TermCase{cs, x.Val})
+				}
+			}
+			nc := Not(t.Args[0])
+			for _, x := range rec(t.Args[2]) {
+				cs := append([]*Term{nc}, x.Conds...)
+				if !condsContradict(cs) {
+					out = append(out, TermCase{cs, x.Val})
+				}
+			}
+			return out
+		case "tuple":
+			acc := []TermCase{{nil, &Term{Op: "tuple"}}}
+			for _, a := range t.Args {
+				var next []TermCase
+				for _, pre := range acc {
+					for _, x := range rec(a) {
+						cs := append(append([]*Term{}, pre.Conds...), x.Conds...)
+						// dedupe
+						seen := map[string]bool{}
+						var ds []*Term
+						for _, c := range cs {
+							if !seen[c.Key()] {
+								seen[c.Key()] = true
+								ds = append(ds, c)
+							}
+						}
+						if condsContradict(ds) {
+							continue
+						}
+						nt := &Term{Op: "tuple", Args: append(append([]*Term{}, pre.Val.Args...), x.Val)}
+						next = append(next, TermCase{ds, nt})
+						if max > 0 && len(next) > max {
+							return nil
+						}
+					}
+				}
+				acc = next
+			}
+			return acc
+		}
+		return []TermCase{{nil, t}}
+	}
+	out := rec(t)
+	if max > 0 && len(out) > max {
+		return nil
+	}
+	return out
+}
